@@ -4,7 +4,9 @@
   structural proof (`acc_all`) and the fact that zero-extension commutes with the reference shift register.
 -/
 import XzVerif.Lemmas.CrcClmulLarge
+import XzVerif.Lemmas.CrcClmulId32a
 import XzVerif.Lemmas.CrcClmulId32b
+import XzVerif.Lemmas.CrcClmulId64a
 import XzVerif.Lemmas.CrcClmulId64b
 namespace XzVerif.Clmul
 open XzVerif.Crc
